@@ -39,6 +39,10 @@ CHECKS = {
    technique="runtime monitoring: verdict/report monitor parsing Verify's error lists and comparing them with the model's missing/extra sets over materialised directory states; snapshot conservation",
    text="For every labeled forest up to 5/6 nodes every prefix-closed subset of its node paths is materialised as directory state (leaves as files or directories, 0-3 extra entries inside, beside and nested under roots, states produced by real Mkdir with each extension list) and verified strict and non-strict through the four routes with explicit and default target: nil iff the model sees no difference, the first differing root's missing and extra lists exactly the model's, filesystem unchanged, and Mkdir-then-strict-Verify passes.",
    note="No symlinks or unreadable directories; lists compared as sets; names contain no control characters (the report is line based)."),
+ "C09": dict(level="exploration", design="DESIGN.md §4 C09",
+   technique="runtime monitoring: jail-snapshot monitor under dry-run + report monitor (plain output + per-root counts cross-checked against a real Mkdir's snapshot delta) + accept/reject differential between dry run and real run",
+   text="Exhaustive small forests and random forests (a third with path-hostile names) x extension lists go through Output+dry-run, MkdirFromMarkdown+dry-run, MkdirFromRoot+dry-run and Verify/Walk with a stray dry-run option, simple and massive: the jail must be unchanged, the report must be the plain output followed per root by counts equal to what a real Mkdir created in a second jail, and dry-run must accept exactly the trees the real run accepts as far as names are concerned.",
+   note="Colour disabled via fatih/color's NoColor; a real-run ErrExistPath (e.g. a root named '.') is not a name rejection; massive reports compared as exact block cover."),
 }
 PENDING = {}
 ids = [json.loads(l)["id"] for l in open("/verif/properties.jsonl")]
